@@ -27,3 +27,20 @@ def gen_management():
     body += f"def sequenceNumbers : List Nat := {lean_list(str(x) for x in cycle)}\n"
     body += "end XknxVerif.Generated.Management\n"
     return body
+
+
+@section("DeviceConfig")
+def gen_device_config():
+    from xknx.io import const as c
+    from xknx.io.request_response.request_response import RequestResponse
+    import inspect
+
+    default_rr_timeout = inspect.signature(RequestResponse.__init__).parameters["timeout_in_seconds"].default
+    body = "namespace XknxVerif.Generated.DeviceConfig\n"
+    body += f"/-- DEVICE_CONFIGURATION_REQUEST_TIMEOUT = {c.DEVICE_CONFIGURATION_REQUEST_TIMEOUT!r} s, in ticks of 2^-20 s -/\n"
+    body += f"def requestTimeout : Nat := {ticks(c.DEVICE_CONFIGURATION_REQUEST_TIMEOUT)}\n"
+    body += f"def requestRepetitions : Nat := {int(c.DEVICE_CONFIGURATION_REQUEST_REPETITIONS)}\n"
+    body += f"/-- default RequestResponse timeout (used by the Disconnect exchange) = {default_rr_timeout!r} s -/\n"
+    body += f"def disconnectTimeout : Nat := {ticks(default_rr_timeout)}\n"
+    body += "end XknxVerif.Generated.DeviceConfig\n"
+    return body
